@@ -51,7 +51,7 @@ type jarCookie struct {
 	Path    string `json:"path"`
 	Value   string `json:"value"`
 	ExpKind int    `json:"exp_kind"`
-	ExpRel  int    `json:"exp_rel_s"` // seconds relative to the instant of the write
+	ExpRel  int    `json:"exp_rel_s"`        // seconds relative to the instant of the write
 	Delete  string `json:"delete,omitempty"` // "max-age-0" | "past-expires" (responses only)
 }
 
@@ -62,7 +62,7 @@ type jarOp struct {
 	Path    string      `json:"path,omitempty"`
 	Cookies []jarCookie `json:"cookies,omitempty"`
 	Secs    int         `json:"secs,omitempty"`
-	KeepObj bool        `json:"keep_obj,omitempty"` // do not release the harness' cookie objects after Set
+	KeepObj bool        `json:"keep_obj,omitempty"`         // do not release the harness' cookie objects after Set
 	RelRet  bool        `json:"release_returned,omitempty"` // Get: release the returned cookies (documented as safe)
 }
 
@@ -75,7 +75,7 @@ type jarWrite struct {
 	via      string
 	at       time.Time
 	expAt    time.Time // zero = never
-	updated  bool          // the spec held a live cookie (host,name) when this write arrived via a response
+	updated  bool      // the spec held a live cookie (host,name) when this write arrived via a response
 }
 
 type jarEntry struct {
@@ -183,12 +183,17 @@ func (s *jarSpec) judge(now time.Time, host, path string, got []retCookie, wire 
 	// (every write counts, also a superseded one: with the host-with-port keying the superseded
 	// cookie may still sit under the other key)
 	for _, w := range s.writes {
-		if w.hostname == hn && !w.expAt.IsZero() && w.expAt.Before(now) && s.gone[w.ck.Value] != "released" {
+		// (a deletion by a past Expires overwrites the stored object with an expired cookie, which
+		// the next Get for the host purges like any other)
+		if w.hostname == hn && s.gone[w.ck.Value] != "released" &&
+			(w.ck.Delete == "past-expires" || (!w.expAt.IsZero() && w.expAt.Before(now))) {
 			s.purged[hn] = true
 			s.anyPurg = true
 		}
 	}
-	purgeSfx := func() string {
+	// ctx: what may have disturbed the jar's internal state earlier in this history; appended to
+	// the catch-all classes so that a catch-all violation in an undisturbed history stands out
+	ctx := func() string {
 		switch {
 		case s.relRet:
 			return "|after-releasing-returned-cookies"
@@ -199,35 +204,26 @@ func (s *jarSpec) judge(now time.Time, host, path string, got []retCookie, wire 
 		}
 		return ""
 	}
-	reuseSfx := func() string {
-		if s.relRet {
-			return "|after-releasing-returned-cookies"
-		}
-		if s.reuse {
-			return "|objects-reused"
-		}
-		return ""
-	}
 	for _, r := range got {
 		w := s.writes[r.Value]
 		switch {
 		case w == nil && r.Name == "" && r.Value == "":
-			out = append(out, jarFinding{"jar|unknown-cookie|empty-object" + purgeSfx(), "Get returned a cookie without name and value (a cookie object that was released to the pool)", r})
+			out = append(out, jarFinding{"jar|unknown-cookie|empty-object" + ctx(), "Get returned a cookie without name and value (a cookie object that was released to the pool)", r})
 			continue
 		case w == nil:
-			out = append(out, jarFinding{"jar|unknown-cookie|never-written" + purgeSfx(), "Get returned a cookie that was never written", r})
+			out = append(out, jarFinding{"jar|unknown-cookie|never-written" + ctx(), "Get returned a cookie that was never written", r})
 			continue
 		case w.ck.Name != r.Name:
-			out = append(out, jarFinding{"jar|unknown-cookie|name-of-another-write" + purgeSfx(), "Get returned the value of one write under the name of another", r})
+			out = append(out, jarFinding{"jar|unknown-cookie|name-of-another-write" + ctx(), "Get returned the value of one write under the name of another", r})
 			continue
 		case w.hostname != hn:
-			out = append(out, jarFinding{"jar|other-host" + purgeSfx(), fmt.Sprintf("cookie stored for host %s returned for host %s", w.hostname, hn), r})
+			out = append(out, jarFinding{"jar|other-host" + ctx(), fmt.Sprintf("cookie stored for host %s returned for host %s", w.hostname, hn), r})
 			continue
 		}
 		if why, ok := s.gone[r.Value]; ok {
 			switch {
 			case why == "superseded":
-				cls := "other" + reuseSfx()
+				cls := "other" + ctx()
 				if lv := s.live[hn+"\x00"+r.Name]; w.host != w.hostname || (lv != nil && lv.w.host != lv.w.hostname) {
 					cls = "host-with-port"
 				} else if s.respUpd[hn+"\x00"+r.Name] {
@@ -261,15 +257,17 @@ func (s *jarSpec) judge(now time.Time, host, path string, got []retCookie, wire 
 		counted[r.Value]++
 	}
 	if !wire {
-		for v, n := range counted {
-			if n > 1 {
+		vals := make([]string, 0, len(counted))
+		for v := range counted {
+			vals = append(vals, v)
+		}
+		sort.Strings(vals)
+		for _, v := range vals {
+			if n := counted[v]; n > 1 {
 				w := s.writes[v]
-				cls := "other" + reuseSfx()
-				switch {
-				case s.respUpd[hn+"\x00"+w.ck.Name]:
+				cls := "other" + ctx()
+				if s.respUpd[hn+"\x00"+w.ck.Name] {
 					cls = "after-response-update-of-existing"
-				case s.purged[hn]:
-					cls = "after-expiry-purge"
 				}
 				out = append(out, jarFinding{"jar|duplicate-returned|" + cls, fmt.Sprintf("cookie returned %d times", n), retCookie{w.ck.Name, v, w.ck.Path}})
 			}
@@ -295,15 +293,15 @@ func (s *jarSpec) judge(now time.Time, host, path string, got []retCookie, wire 
 		if !segPrefix(w.ck.Path, path) {
 			continue // "/a" vs "/ab": string prefix but not a path prefix — not asserted either way
 		}
-		cls := "other" + reuseSfx()
+		cls := "other" + ctx()
 		switch {
 		case w.host != w.hostname:
 			cls = "host-with-port"
 		case len(w.ck.Path) > 1 && len(path) > len(w.ck.Path):
 			out = append(out, jarFinding{"jar|path-prefix-reversed", fmt.Sprintf("cookie with path %q withheld for request path %q", w.ck.Path, path), retCookie{w.ck.Name, w.ck.Value, w.ck.Path}})
 			continue
-		case s.purged[hn]:
-			cls = "after-expiry-purge"
+		case s.respUpd[k]:
+			cls = "after-response-update-of-existing"
 		}
 		out = append(out, jarFinding{"jar|withheld|" + cls, fmt.Sprintf("unexpired cookie with path %q stored for %s not returned for %s%s", w.ck.Path, w.host, host, path), retCookie{w.ck.Name, w.ck.Value, w.ck.Path}})
 	}
